@@ -1,5 +1,5 @@
 import Driver.Codec
-import LopdfModel.Model.Read
+import LopdfModel.Model.ReadG
 namespace Lopdf.Driver.C02
 open Lopdf Lopdf.Codec
 
@@ -7,7 +7,9 @@ def showLoaded (l : Loaded) : String :=
   "ok " ++ toString l.maxId ++ " " ++ toString l.xrefStart ++ " " ++ hexTok l.version ++ " " ++ hexTok l.binaryMark
     ++ " " ++ showObj (.dict l.trailer) ++ " " ++ showObjects l.objects
 
-/-- `load <hex>` -> `ok <maxId> <xrefStart> <version> <mark> <trailer> <objects>` | `err` | `panic` | `ext` -/
+/-- (the reader is `loadDocWithG flateDec`: Model/ReadG.lean — the same code as `loadDocWith`, theorem `loadDocWithG_plain`,
+with Flate / LZW / ASCII85-coded structural streams decoded by the specification codecs)
+`load <hex>` -> `ok <maxId> <xrefStart> <version> <mark> <trailer> <objects>` | `err` | `panic` | `ext` -/
 def handle (op : String) (args : List String) : Option String :=
   match op with
   | "load" =>
@@ -15,7 +17,7 @@ def handle (op : String) (args : List String) : Option String :=
     | [h] =>
       match bytesOfHex h with
       | some bs =>
-        match loadDoc bs with
+        match loadDocF bs with
         | .ok l => showLoaded l
         | .err "ext" => "ext"
         | .err _ => "err"
@@ -28,7 +30,7 @@ def handle (op : String) (args : List String) : Option String :=
     | [p, h] =>
       match (p.splitOn ",").mapM String.toNat?, bytesOfHex h with
       | some order, some bs =>
-        match loadDocOrd (some order) bs with
+        match loadDocF2 (some order) none bs with
         | .ok l => showLoaded l
         | .err "ext" => "ext"
         | .err _ => "err"
@@ -41,7 +43,7 @@ def handle (op : String) (args : List String) : Option String :=
     | [k, h] =>
       match k.toNat?, bytesOfHex h with
       | some k, some bs =>
-        match loadDocOrd2 none (some k) bs with
+        match loadDocF2 none (some k) bs with
         | .ok l => showLoaded l
         | .err "ext" => "ext"
         | .err _ => "err"
